@@ -9,9 +9,11 @@ import (
 	"bufio"
 	"bytes"
 	"compress/gzip"
+	"context"
 	"crypto/sha256"
 	"crypto/tls"
 	"encoding/pem"
+	"errors"
 	"fmt"
 	"io"
 	"math/rand"
@@ -170,6 +172,7 @@ type recRT struct {
 	got   *upObs
 	calls int
 	resp  *respT
+	err   error // non-nil: the round trip fails with it
 }
 
 func (t *recRT) RoundTrip(r *http.Request) (*http.Response, error) {
@@ -182,6 +185,9 @@ func (t *recRT) RoundTrip(r *http.Request) (*http.Response, error) {
 		o.Body, _ = io.ReadAll(r.Body)
 	}
 	t.got = o
+	if t.err != nil {
+		return nil, t.err
+	}
 	h := http.Header{}
 	for _, kv := range t.resp.Hdrs {
 		h.Add(kv.K, kv.V)
@@ -301,11 +307,11 @@ func genHeaders(r *rand.Rand, wire bool) []hdr {
 	case 3:
 		hs = append(hs, hdr{"user-agent", "Mozilla/5.0 (X11; Linux) Gecko"})
 	case 4:
-		if !wire {
+		if true {
 			hs = append(hs, hdr{"User-Agent", ""})
 		}
 	case 5:
-		if !wire {
+		if true {
 			hs = append(hs, hdr{"User-Agent", "a/1"}, hdr{"User-Agent", "b/2"})
 		}
 	}
@@ -313,7 +319,7 @@ func genHeaders(r *rand.Rand, wire bool) []hdr {
 	if r.Intn(3) == 0 {
 		switch r.Intn(11) {
 		case 0:
-			if !wire {
+			if true {
 				hs = append(hs, hdr{"Connection", "close"})
 			}
 		case 1:
@@ -333,11 +339,11 @@ func genHeaders(r *rand.Rand, wire bool) []hdr {
 		case 8:
 			hs = append(hs, hdr{"Connection", " cookie ,,\tAccept"}, hdr{"Connection", "user-agent"})
 		case 9:
-			if !wire {
+			if true {
 				hs = append(hs, hdr{"Upgrade", pick(r, []string{"foo", "h2c", "WebSocket", "websocket2", "TLS/1.0"})}, hdr{"Connection", pick(r, []string{"upgrade", "Upgrade", "keep-alive, Upgrade", "close"})})
 			}
 		case 10:
-			if !wire {
+			if true {
 				hs = append(hs, hdr{"Upgrade", "foo"}) // no Connection: upgrade -> not an upgrade request
 			}
 		}
@@ -369,7 +375,7 @@ func genResp(r *rand.Rand, method string, wire bool) *respT {
 		rs.Hdrs = append(rs.Hdrs, hdr{"Content-Type", "application/x-test"})
 	}
 	gz := wire && r.Intn(4) == 0
-	if r.Intn(4) == 0 && !wire {
+	if r.Intn(4) == 0 {
 		switch r.Intn(5) {
 		case 0:
 			rs.Hdrs = append(rs.Hdrs, hdr{"Connection", "close"})
@@ -424,8 +430,18 @@ func genBody(r *rand.Rand) []byte {
 	return b
 }
 
+func originPart(target string) string {
+	if rest, ok := strings.CutPrefix(target, "http://"); ok {
+		if i := strings.IndexAny(rest, "/?"); i >= 0 {
+			return rest[i:]
+		}
+		return ""
+	}
+	return target
+}
+
 func decodedPath(target string) string {
-	p, _, _ := strings.Cut(target, "?")
+	p, _, _ := strings.Cut(originPart(target), "?")
 	d, err := url.PathUnescape(p)
 	if err != nil {
 		return p
@@ -465,7 +481,7 @@ func genOpts(r *rand.Rand, target string) *optsT {
 		case 6: // not a prefix
 			o.Strip = pick(r, []string{"/strip", "/other", "strip", "/a/b/c/d/e/f", "/A", "/Foo", "/API", "/Users", "/V1", strings.ToUpper(dp)})
 		case 7: // prefix of the RAW path (still encoded): matches only if nothing was decoded
-			p, _, _ := strings.Cut(target, "?")
+			p, _, _ := strings.Cut(originPart(target), "?")
 			if len(p) > 1 {
 				o.Strip = p[:1+r.Intn(len(p))]
 			}
@@ -501,7 +517,13 @@ func genReq(r *rand.Rand, wire bool) *reqT {
 		q.Body = genBody(r)
 		q.Chunked = r.Intn(3) == 0
 	}
-	if !wire && r.Intn(30) == 0 {
+	if r.Intn(25) == 0 { // absolute-form request target
+		q.Target = "http://" + pick(r, []string{"example.com", "abs.example.org:8080", "10.9.8.7"}) + q.Target
+	}
+	if len(q.Body) > 0 && r.Intn(12) == 0 {
+		q.Hdrs = append(q.Hdrs, hdr{"Expect", "100-continue"})
+	}
+	if r.Intn(30) == 0 {
 		q.Proto = "HTTP/1.0"
 		q.Chunked = false
 		if r.Intn(2) == 0 {
@@ -533,14 +555,19 @@ func parseReq(raw []byte) (*http.Request, error) {
 	return req, nil
 }
 
-func serve(raw []byte, lookup func(*http.Request) *route.Target, cfg config.Proxy, rs *respT) (*result, error) {
+const theUUID = "11111111-2222-3333-4444-555555555555"
+
+func serve(raw []byte, lookup func(*http.Request) *route.Target, cfg config.Proxy, rs *respT, rtErr ...error) (*result, error) {
 	req, err := parseReq(raw)
 	if err != nil {
 		return nil, err
 	}
 	res := &result{parsed: flatten(req.Header), host: req.Host}
 	rt := &recRT{resp: rs}
-	p := &proxy.HTTPProxy{Config: cfg, Transport: rt, Lookup: lookup}
+	if len(rtErr) > 0 {
+		rt.err = rtErr[0]
+	}
+	p := &proxy.HTTPProxy{Config: cfg, Transport: rt, Lookup: lookup, UUID: func() string { return theUUID }}
 	w := httptest.NewRecorder()
 	if pn, _ := vh.Recover(func() { p.ServeHTTP(w, req) }); pn {
 		res.panicked = true
@@ -565,6 +592,7 @@ type loop struct {
 	tgt      *route.Target
 	chunkRng *rand.Rand
 	px       *proxy.HTTPProxy
+	retries  int
 }
 
 // newLoop starts the loopback pair.  withTLS: the upstream is an HTTPS server (httptest's
@@ -655,7 +683,7 @@ func newLoop(withTLS bool, certDir string) *loop {
 // the per-target transport is the one the product builds.
 func tableTarget(scheme, addr, tquery string, opts map[string]string) (*route.Target, string, error) {
 	var kv []string
-	for _, k := range []string{"strip", "prepend", "host", "tlsskipverify", "proto"} {
+	for _, k := range []string{"strip", "prepend", "host", "tlsskipverify", "proto", "allow", "deny", "auth", "redirect"} {
 		if v := opts[k]; v != "" {
 			kv = append(kv, k+"="+v)
 		}
@@ -700,7 +728,20 @@ func gzipReply(rs *respT) {
 	rs.Body = zb.Bytes()
 }
 
+// roundTrip sends the request once more when no well-formed response came back: a failure that is
+// a property of the code repeats itself, a hiccup of the (heavily shared) test machine does not.
+// Retries are counted in the evidence notes.
 func (l *loop) roundTrip(raw []byte, tgt *route.Target, rs *respT, method string, infos ...respT) (*result, error) {
+	res, err := l.roundTripOnce(raw, tgt, rs, method, infos...)
+	if err != nil {
+		l.retries++
+		time.Sleep(50 * time.Millisecond)
+		res, err = l.roundTripOnce(raw, tgt, rs, method, infos...)
+	}
+	return res, err
+}
+
+func (l *loop) roundTripOnce(raw []byte, tgt *route.Target, rs *respT, method string, infos ...respT) (*result, error) {
 	l.mu.Lock()
 	l.resp, l.got, l.calls, l.tgt, l.infos = rs, nil, 0, tgt, infos
 	l.mu.Unlock()
@@ -765,15 +806,20 @@ func main() {
 		u, err := url.ParseRequestURI(s)
 		impl := vh.Err(1)
 		sm := map[string]interface{}{"fn": "url.ParseRequestURI", "in": s, "err": err != nil}
+		abs := strings.HasPrefix(s, "http://") && strings.HasPrefix(originPart(s), "/")
 		if err == nil {
-			if u.Scheme != "" || u.Opaque != "" || u.Host != "" || !strings.HasPrefix(s, "/") {
-				run.Exclude("request target not in origin form")
+			if !abs && (u.Scheme != "" || u.Opaque != "" || u.Host != "" || !strings.HasPrefix(s, "/")) {
+				run.Exclude("request target neither in origin form nor in absolute form with a path")
+				return
+			}
+			if abs && (u.Opaque != "" || u.User != nil) {
+				run.Exclude("request target neither in origin form nor in absolute form with a path")
 				return
 			}
 			impl = vh.Ok(fmt.Sprintf("(%s, %s, %s, %s, %s, %s)", vh.HxS(u.Path), vh.HxS(u.RawPath), vh.HxS(u.RawQuery), vh.Bool(u.ForceQuery), vh.HxS(u.EscapedPath()), vh.HxS(u.RequestURI())))
 			sm["path"], sm["rawpath"], sm["request_uri"] = u.Path, u.RawPath, u.RequestURI()
-		} else if !strings.HasPrefix(s, "/") {
-			run.Exclude("request target not in origin form")
+		} else if !strings.HasPrefix(s, "/") && !abs {
+			run.Exclude("request target neither in origin form nor in absolute form with a path")
 			return
 		}
 		run.Add(class, vh.App("CParse", vh.HxS(s), impl), sm)
@@ -787,6 +833,9 @@ func main() {
 		p := genPath(r)
 		addUnesc("url-unescape", p)
 		addParse("url-parse", p+pick(r, queries))
+		if r.Intn(6) == 0 {
+			addParse("url-parse-absolute", "http://"+pick(r, []string{"example.com", "h:8080", "10.0.0.1", "[::1]:80", "a.b-c.d"})+genPath(r)+pick(r, queries))
+		}
 		d := decodedPath(p)
 		switch r.Intn(4) {
 		case 0:
@@ -893,6 +942,87 @@ func main() {
 		}
 	}
 
+	// ---- 2b. a proxy configuration with a request-id header (set by fabio before routing) ----
+	for i := 0; i < run.Scale(120, 1500); i++ {
+		q := genReq(r, false)
+		reqid := pick(r, []string{"X-Request-Id", "X-Request-Id", "X-Rid", "Etag"})
+		if i%3 == 0 { // the client sends the header itself: it is overwritten by configuration
+			q.Hdrs = append(q.Hdrs, hdr{strings.ToLower(reqid), "from-client"})
+		}
+		o := genOpts(r, q.Target)
+		rs := genResp(r, q.Method, false)
+		raw := q.wire(r)
+		tgt := mkTarget(o)
+		res, err := serve(raw, func(*http.Request) *route.Target { return tgt }, config.Proxy{RequestID: reqid}, rs)
+		if err != nil {
+			run.Exclude("net/http rejects the request before fabio sees it")
+			continue
+		}
+		id := run.NextID()
+		if res.panicked {
+			run.Violation(id, "ServeHTTP panicked on a routed request", sampleOf(q, o, nil))
+			continue
+		}
+		sm := sampleOf(q, o, res)
+		sm["request_id_header"] = reqid
+		run.Add("forward-requestid", vh.App("CFwdCfg", vh.HxS(reqid), vh.HxS(theUUID), coqOpts(o), coqReq(q, res.host, res.parsed), coqUp(res.up), coqResp(rs.Status, flattenList(rs.Hdrs), rs.Body), coqResp(res.code, res.clientHdrs, res.clientBody)), sm)
+	}
+
+	// ---- 2c. the other ways out of ServeHTTP: denied, not authorized, redirect (no round trip);
+	//          failing round trips (status from the error) ----
+	for i := 0; i < run.Scale(96, 1200); i++ {
+		q := genReq(r, false)
+		kind := 1 + i%8
+		code := 0
+		opts := map[string]string{"strip": pick(r, []string{"", "/strip"})}
+		var rtErr []error
+		switch kind {
+		case 1:
+			opts[pick(r, []string{"allow", "allow", "deny"})] = "ip:10.0.0.0/8"
+			if _, ok := opts["deny"]; ok {
+				opts["deny"] = "ip:192.0.2.0/24"
+			}
+		case 2:
+			opts["auth"] = "no-such-scheme"
+		case 3:
+			code = []int{301, 302, 303, 307, 308}[r.Intn(5)]
+			opts["redirect"] = strconv.Itoa(code)
+		case 4:
+			rtErr = []error{&net.OpError{Op: "dial", Net: "tcp", Err: errors.New("connection refused")}}
+		case 5:
+			rtErr = []error{os.ErrDeadlineExceeded}
+		case 6:
+			rtErr = []error{io.EOF}
+		case 7:
+			rtErr = []error{context.Canceled}
+		case 8:
+			rtErr = []error{errors.New("malformed HTTP response")}
+		}
+		tgt, text, err := tableTarget("http", "10.0.0.7:8080", "", opts)
+		if err != nil {
+			run.Violation(run.NextID(), "route text rejected: "+err.Error(), text)
+			continue
+		}
+		res, err := serve(q.wire(r), func(req *http.Request) *route.Target {
+			if kind == 3 {
+				tgt.BuildRedirectURL(&url.URL{Scheme: "http", Host: req.Host, Path: req.URL.Path, RawQuery: req.URL.RawQuery})
+			}
+			return tgt
+		}, config.Proxy{}, &respT{Status: 200, Body: []byte("never")}, rtErr...)
+		if err != nil {
+			run.Exclude("net/http rejects the request before fabio sees it")
+			continue
+		}
+		id := run.NextID()
+		if res.panicked {
+			run.Violation(id, "ServeHTTP panicked", sampleOf(q, nil, nil))
+			continue
+		}
+		sm := sampleOf(q, nil, res)
+		sm["exit_kind"], sm["route"] = []string{"", "denied", "unauthorized", "redirect", "net error", "timeout", "EOF", "canceled", "other error"}[kind], text
+		run.Add("serve-exit", vh.App("CExit", vh.N(kind), vh.Z(int64(code)), vh.Bool(res.calls > 0), vh.Z(int64(res.code))), sm)
+	}
+
 	// ---- 3. no route ----
 	for i := 0; i < run.Scale(240, 4000); i++ {
 		q := genReq(r, false)
@@ -975,6 +1105,7 @@ func main() {
 		}
 		sm := sampleOf(q, &o2, res)
 		sm["wire"] = true
+		sm["request_head"], sm["upstream_response"] = string(raw[:min(len(raw), 400)]), fmt.Sprintf("%d %v", rs.Status, rs.Hdrs)
 		run.Add("forward-loopback", vh.App("CFwd", "true", coqOpts(&o2), coqReq(q, host, parsed), coqUp(res.up), coqResp(rs.Status, flattenList(rs.Hdrs), rs.Body), coqResp(res.code, res.clientHdrs, res.clientBody)), sm)
 	}
 
@@ -1056,12 +1187,12 @@ func main() {
 	for i := 0; i < run.Scale(120, 1500); i++ {
 		q := genReq(r, true)
 		q.Method, q.Body, q.Chunked = "GET", nil, false
-		p, qs, _ := strings.Cut(q.Target, "?")
+		p, qs, hasQ := strings.Cut(originPart(q.Target), "?")
 		if i%2 == 0 {
 			p = pick(r, []string{"/strip/a%2Fb", "/strip/%41", "/a%2Fb", "/str%69p/a%2Fb", "/strip%2Fx", "/ws/a%2Fb/c", "/strip/x%20y", "/a^b%2Fc", "/strip/!$&'()*,="})
 		}
 		q.Target = p
-		if qs != "" { // a lone '?' is dropped on this path (the target URL is built without ForceQuery): not generated
+		if hasQ {
 			q.Target += "?" + qs
 		}
 		var hs []hdr
@@ -1212,6 +1343,7 @@ func main() {
 		sm["upstream_body_len"], sm["client_body_len"] = len(rs.Body), len(res.clientBody)
 		run.Add("forward-loopback-https-"+sel.name, vh.App("CFwd", "true", coqOpts(&o2), coqReq(q, host, parsed), coqUp(res.up), coqResp(rs.Status, flattenList(rs.Hdrs), rs.Body), coqResp(res.code, res.clientHdrs, res.clientBody)), sm)
 	}
+	run.Notes["loopback_retries"] = lp.retries + lt.retries
 	os.Remove(filepath.Join(run.Out, "c07-upstream-root.pem"))
 	run.Finish(preamble, run.Scale(130, 400))
 }
